@@ -82,13 +82,13 @@ Fixpoint struct (fuel : nat) (g : graph) (fresh entry : Z) : graph * Z :=
            if d_changed s then struct f (d_g s) (d_fresh s) (d_entry s) else (d_g s, d_entry s)
   end.
 
-(* the structure below the entry as a tree (exits are the identifiers from 100 on) *)
+(* the structure below the entry as a tree (exit k is the identifier -1 - k: below every block, so that new blocks can be numbered upwards) *)
 Fixpoint tree_of (fuel : nat) (g : graph) (i : Z) : cfg :=
   match fuel with
   | O => Exit (-1)
-  | S f => match lookup g i with None => Exit (i - 100) | Some n => Node (g_cond n) (tree_of f g (g_true n)) (tree_of f g (g_false n)) end
+  | S f => match lookup g i with None => Exit (-1 - i) | Some n => Node (g_cond n) (tree_of f g (g_true n)) (tree_of f g (g_false n)) end
   end.
-(* a chain: per conditional block its true and false targets (a block number, or 100 + k for exit k) and whether it lies in a handler *)
+(* a chain: per conditional block its true and false targets (a block number, or -1 - k for exit k) and whether it lies in a handler *)
 Definition chain_graph (spec : list ((Z * Z) * bool)) : graph :=
   map (fun ik => let '(i, ((t, f), c)) := ik in (i, mk (Leaf i false) t f c)) (combine (map Z.of_nat (seq 0 (length spec))) spec).
 Definition obs_struct (x : Z * list ((Z * Z) * bool)) : val :=
